@@ -3,11 +3,12 @@
 # <seed-id> names the scratch worktree /tmp/seed_<seed-id>; results go to /verif/seeded/<seed-id>/
 export GOFLAGS=-mod=mod GOPROXY=off GOSUMDB=off GOTOOLCHAIN=local
 sid="$1"; prop="$2"; tier="${3:-quick}"
-wt=/tmp/seed_$sid; out=/verif/seeded/$sid
+wt=${SEED_WT:-/tmp/seed_$sid}; out=/verif/seeded/$sid
 [ -f $wt/SEED/patch.diff ] || { echo "no patch in $wt/SEED"; exit 2; }
 mkdir -p $out
 cp $wt/SEED/patch.diff $out/patch.diff
 cp $wt/SEED/zz_seed_demo_test.go $out/ 2>/dev/null
+cp $wt/SEED/meta.json $out/agent_meta.json 2>/dev/null
 demo_pkg=$(python3 -c "import json;print(json.load(open('$wt/SEED/meta.json')).get('demo_pkg',''))" 2>/dev/null)
 [ -z "$demo_pkg" ] && demo_pkg=$(dirname $(cd $wt && git status --porcelain | grep zz_seed_demo_test.go | awk '{print $2}' | head -1))
 demo_pkg=${demo_pkg#./}; demo_pkg=${demo_pkg%/}
